@@ -49,9 +49,20 @@ def _normalize_title_quotes(title: str) -> str:
 
 def _render_link_dest(dest: str) -> str:
     """
-    A link destination that contains whitespace is only valid inside angle brackets.
+    A link destination that contains whitespace or unbalanced parentheses is only
+    valid inside angle brackets.
     """
-    if any(c.isspace() for c in dest):
+    depth = 0
+    balanced = True
+    for c in dest:
+        if c == "(":
+            depth += 1
+        elif c == ")":
+            depth -= 1
+            if depth < 0:
+                balanced = False
+                break
+    if any(c.isspace() for c in dest) or not balanced or depth != 0:
         return f"<{dest}>"
     return dest
 
